@@ -552,6 +552,18 @@ theorem stamp_heads {h : Hist} {o : LoadOpts} {m : LMap} (hl : load h o = .ok m)
       · exact hx
     · exact Or.inr
 
+/-- **`stamp heads` in the words of the property**: the version table ends holding, each once,
+exactly the revisions of the history that no revision file names as a prerequisite. -/
+theorem stamp_heads_history {h : Hist} {o : LoadOpts} {m : LMap} (hl : load h o = .ok m)
+    (hu : (h.map (·.id)).Nodup) (hd : ∀ r ∈ h, ∀ d ∈ r.down, d ∈ h.map (·.id))
+    (hplain : FullIds m m.ids) (R : List Id) (hR : Antichain m R) (hsub : ∀ x ∈ R, x ∈ m.ids) :
+    ∃ R', stamp m ["heads"] R = .ok R' ∧ R'.Nodup ∧ ∀ x, x ∈ R' ↔ x ∈ realHeadsOf h := by
+  obtain ⟨R', h1, h2, _⟩ := stamp_heads hl hu hd hplain R hR hsub
+  refine ⟨R', h1, h2.nodup, ?_⟩
+  intro x
+  rw [h2.iff x]
+  exact (C15.heads_bases_history hl hu hd).2.1 x
+
 /-! ### lineage in terms of the history as written -/
 
 /-- "shares a lineage with `d`" in the loaded map is "ancestor or descendant of `d` through the
